@@ -310,6 +310,12 @@ fn run(ctx: &Ctx) -> Run {
                 gen::point(&mut rng, &fr, class)
             };
             let cands = neighbourhood(&mut rng, lo, la, res);
+            if i % 2 == 1 && !cands.is_empty() {
+                // history: a relative of one candidate (same curve position on another face, ...) is placed immediately before
+                let k = cands[rng.usize(cands.len())];
+                prime_history(&mut rng, k);
+                run.count("neighbourhood.primed_with_a_relative");
+            }
             check_point(run, lo, la, res, &cands, class, "lookups");
             run.count(&format!("neighbourhood.res{res:02}"));
             run.count(&format!("class.{class}"));
